@@ -135,7 +135,7 @@ def header_line(npar, vel, ctime='20:100:43200'):
 def write(path, m, tri='L', extra=False):
     pl = param_list(m)
     npar = len(pl)
-    L = [header_line(npar, m['vel']), SEP]
+    L = [header_line(npar, m['vel'], m.get('ctime', '20:100:43200')), SEP]
     if extra:   
         # blocks the editing functions do not know, as real solutions carry them
         L += ['+FILE/REFERENCE', ' DESCRIPTION        gpmc synthetic solution', ' SOFTWARE           none', '-FILE/REFERENCE', SEP]
